@@ -943,7 +943,7 @@ class Airplane:
         """
         # Store controls
         for key,_ in self.current_control_state.items():
-            self.current_control_state[key] = control_state.get(key, 0.0)
+            self.current_control_state[key] = import_value(key, control_state, self._unit_sys, 0.0) # (a value given with a unit is recorded in the default unit)
 
         # Apply to wing segments
         for _,wing_segment in self.wing_segments.items():
